@@ -70,7 +70,14 @@ def mk_sol(problem, objs, cv=0.0):
         s = C.Solution(problem)
     s.objectives[:] = list(objs)
     s.constraint_violation = cv
-    s.feasible = cv == 0.0
+    if prev is not None:
+        _verify(prev)           # writing into a copy must not have written into the solution it was copied from
+    if _CLONE[0] % 2 == 0 or _CLONE[0] % 5 == 0:
+        s.feasible = cv == 0.0
+    elif "feasible" in s.__dict__:
+        # a hand-built solution as the library's own tests build it: only `constraint_violation` is assigned; the `feasible` flag
+        # is something evaluation adds, and nothing that judges feasibility may rely on it being there
+        del s.__dict__["feasible"]
     s.evaluated = True
     _LAST[id(problem)] = s
     if len(_MADE) < 200000:
@@ -105,25 +112,39 @@ def changed_on_purpose(s):
         _MADE[id(s)] = (weakref.ref(s), [s.objectives[i] for i in range(len(s.objectives))], s.constraint_violation)
 
 
+_TRIPPED = []
+
+
+def _verify(s):
+    """is `s` still what the harness made it?  a difference is recorded once (and the record brought up to date)"""
+    rec = _MADE.get(id(s))
+    if rec is None or rec[0]() is not s:
+        return True
+    _, objs, cv = rec
+    try:
+        now = [s.objectives[i] for i in range(len(objs))]
+    except Exception:
+        now = None
+    same = now is not None and all((a == b) or (a != a and b != b) for a, b in zip(now, objs)) and \
+        (s.constraint_violation == cv or (cv != cv and s.constraint_violation != s.constraint_violation))
+    if not same:
+        if len(_TRIPPED) < 50:
+            _TRIPPED.append({"given_objectives": [repr(o) for o in objs], "given_violation": cv,
+                             "now_objectives": None if now is None else [repr(o) for o in now], "now_violation": repr(getattr(s, "constraint_violation", None))})
+        changed_on_purpose(s)
+    return same
+
+
 def integrity_failures(limit=3):
-    """solutions whose objectives / violation are no longer what the harness gave them"""
-    bad = []
-    for ref, objs, cv in list(_MADE.values()):
+    """solutions whose objectives / violation are no longer what the harness gave them: those noticed while building copies of
+    them, and those still alive at the end of the run"""
+    for ref, _, _ in list(_MADE.values()):
         s = ref()
-        if s is None:
-            continue
-        try:
-            now = [s.objectives[i] for i in range(len(objs))]
-        except Exception:
-            now = None
-        same = now is not None and all((a == b) or (a != a and b != b) for a, b in zip(now, objs)) and \
-            (s.constraint_violation == cv or (cv != cv and s.constraint_violation != s.constraint_violation))
-        if not same:
-            bad.append({"given_objectives": [repr(o) for o in objs], "given_violation": cv,
-                        "now_objectives": None if now is None else [repr(o) for o in now], "now_violation": repr(getattr(s, "constraint_violation", None))})
-            if len(bad) >= limit:
-                break
-    return bad
+        if s is not None:
+            _verify(s)
+        if len(_TRIPPED) >= limit:
+            break
+    return _TRIPPED[:limit]
 
 
 class Ids:
